@@ -177,6 +177,34 @@ func (r *crun) apply(op harness.Op, idx int) {
 		r.submit(r.node(op.N), t1, false)
 		r.submit(r.node(op.M), t2, false)
 		r.out.Faults["client.doublespend"]++
+	case "restartsubmit":
+		// a node is restarted while it has nothing pending, and transactions are handed to it right after it
+		// comes back, before it has heard from its peers (its own proposals are deferred for a while)
+		n := r.node(op.N)
+		if !n.Alive {
+			return
+		}
+		c.Crash(n, false)
+		r.fault("crash.step_boundary", c.Q.Now)
+		c.Q.After(200*time.Millisecond, "restart", func() {
+			if err := c.Restart(n); err != nil {
+				c.Violate("C22", "restart-failed", err.Error(), n)
+				return
+			}
+			for k := int64(0); k < 1+op.B%3; k++ {
+				k := k
+				c.Q.After(time.Duration(50+op.A%700+k*180)*time.Millisecond, "restartsubmit.deposit", func() {
+					if !n.Alive {
+						return
+					}
+					asset := assetTable[int(op.A+k)%len(assetTable)]
+					amount := common.NewIntegerFromString(fmt.Sprintf("%d.%02d", 1+(op.A+k)%20, op.A%100))
+					tx, coin := c.MakeDeposit(asset, amount, fmt.Sprintf("ext-rs-%s-%d", opLabel(op, idx), k), uint64(k), []int{int(op.C) % 4}, 1)
+					r.coins[100000+idx*8+int(k)] = []*cluster.Coin{coin}
+					r.submit(n, tx, true)
+				})
+			}
+		})
 	case "keyclash":
 		// two honest-looking transfers of different coins to the same one-time output key (same recipient,
 		// same seed): the first goes to a node that is cut off (it admits, proposes and locks it, but can
